@@ -35,6 +35,9 @@ pub fn check_content(case: &CrlCase, info: &mut CaseInfo) -> Result<(), String> 
 	for r in &case.crl.revoked {
 		info.class(format!("reason:{:?}", r.reason));
 	}
+	if case.crl.revoked.iter().any(|r| Some(&r.serial) == case.issuer.spec.serial.as_ref()) {
+		info.class("entry-bears-the-issuer-certificate's-serial");
+	}
 	let built = build_crl(case)?.map_err(|e| format!("CRL signed_by refused a valid request: {e}"))?;
 	let (c, _) = decode_crl(built.crl.der())?;
 	model::check_crl(&c, &case.crl, &case.issuer.spec.dn, &keys::fixture(&case.issuer.key).spki)?;
@@ -327,8 +330,11 @@ pub fn def() -> PropertyDef {
 						// a listed certificate may bear the number the issuer's own certificate bears (serial
 						// numbers are unique per issuer, and the issuer's was given out by its parent)
 						if own_serial {
-							if let (Some(s), Some(e)) = (c.issuer.spec.serial.clone(), c.crl.revoked.first_mut()) {
-								e.serial = s;
+							if let Some(e) = c.crl.revoked.first_mut() {
+								match c.issuer.spec.serial.clone() {
+									Some(s) => e.serial = s,
+									None => c.issuer.spec.serial = Some(e.serial.clone()),
+								}
 							}
 						}
 						c
